@@ -73,7 +73,15 @@ Classes ==
   \* layer above it interprets, at lengths around the 12 bytes of a real tcp.pong, each server->client one followed
   \* by an ordinary marker packet; the client sends the same kinds of payload
   \o [i \in 1..Len(IdNames) |-> [f |-> "none", d |-> "s2c", tgt |-> "ids", reg |-> IdNames[i], n |-> 0]]
+  \* fault-free: the connection is dialled under a context with a short deadline (plan step Hs carries `dial` ms);
+  \* all data traffic, in both directions, happens after that deadline has passed (step Wait)
+  \o <<[f |-> "none", d |-> "s2c", tgt |-> "deadline", reg |-> "none", n |-> 0],
+  \* fault-free: the client is handed the same packet value again (p1, p1, p2, p1, p3, p3; p2 was first sent on
+  \* another connection)
+       [f |-> "none", d |-> "c2s", tgt |-> "resend", reg |-> "none", n |-> 0]>>
 NCls == Len(Classes)
+DialMs == 300
+WaitUntilMs == 450
 Shrinking == << <<1000, 60, 60, 3>>, <<65535, 1000, 1000, 1>>, <<60, 60, 4, 4>>, <<1000, 1000, 1000, 0>>, <<4, 3, 1, 1>> >>
 
 SizeBag  == <<0, 1, 3, 4, 60, 1000, 0, 1, 3, 4, 60, 1000, 0, 1, 3, 4, 60, 1000, 65535>>
@@ -86,15 +94,17 @@ MkPlan(id) ==
   LET c   == Classes[((id - 1) % NCls) + 1]
       \* number of data frames per direction; the targeted direction has enough of them
       nT  == IF c.tgt = "later" THEN 2 + Rnd(id, 1, 3) ELSE IF c.tgt = "first" THEN 1 + Rnd(id, 1, 3)
-             ELSE IF c.tgt = "shrink" THEN 4 ELSE IF c.tgt = "ids" THEN 2 * Len(IdLens) ELSE Rnd(id, 1, 5)
-      nO  == Rnd(id, 2, 5)
+             ELSE IF c.tgt = "shrink" THEN 4 ELSE IF c.tgt = "deadline" THEN 1 + Rnd(id, 1, 3) ELSE IF c.tgt = "ids" THEN 2 * Len(IdLens) ELSE Rnd(id, 1, 5)
+      nO  == IF c.tgt = "deadline" THEN 1 + Rnd(id, 2, 3) ELSE Rnd(id, 2, 5)
       \* index (in sent[d]) of the targeted frame; 0 = handshake / none
       j   == CASE c.tgt = "ack"   -> 1
                [] c.tgt = "first" -> IF c.d = "s2c" THEN 2 ELSE 1
                [] c.tgt = "later" -> (IF c.d = "s2c" THEN 3 ELSE 2) + Rnd(id, 3, nT - 1)
                [] OTHER -> 0
       jd  == IF c.d = "s2c" THEN j - 1 ELSE j                      \* its index among the data frames
-      szT == IF c.tgt = "shrink" THEN PickSeq(Shrinking, id, 9)
+      \* a negative entry -k: the packet sent as number k is handed to the sender again
+      szT == IF c.tgt = "resend" THEN <<PickSeq(SizeBag1, id, 11), -1, PickSeq(SizeBag1, id, 12), -1, PickSeq(SizeBag1, id, 13), -5>>
+             ELSE IF c.tgt = "shrink" THEN PickSeq(Shrinking, id, 9)
              ELSE IF c.tgt = "ids" THEN [k \in 1..nT |-> IF k % 2 = 1 THEN IdLens[(k + 1) \div 2] ELSE MarkLens[k \div 2]]
              ELSE [k \in 1..nT |-> IF k = jd /\ c.reg = "payload" THEN PickSeq(SizeBag1, id, 10 + k) ELSE PickSeq(SizeBag, id, 10 + k)]
       \* (a 12-byte tcp.ping from the client could not be told from the pings the client originates by itself)
@@ -146,7 +156,10 @@ Do(m) ==
   CASE m.k = "Hs" ->
          /\ Handshake(EdPubFromSeed(ServerSeedOf(plan.id)), ClientSeedOf(plan.id), ParamsOf(plan.id))
          /\ must' = (IF Targets("c2s", 0) THEN FaultMoves ELSE <<>>)
-         /\ UNCHANGED <<todo, budget, arr>> /\ Log(m)
+         /\ UNCHANGED <<todo, budget, arr>> /\ Log(m @@ [dial |-> IF plan.c.tgt = "deadline" THEN DialMs ELSE 0])
+    [] m.k = "Wait" ->                                    \* until the dial deadline is well past
+         /\ TimePasses /\ must' = Tail(must)
+         /\ UNCHANGED <<todo, budget, arr>> /\ Log(m @@ [until |-> WaitUntilMs])
     [] m.k = "HsDlv" ->
          /\ HsDeliver(ServerSeedOf(plan.id))
          /\ UNCHANGED <<todo, must, budget, arr>> /\ Log(m @@ [ok |-> hs' = "accepted"])
@@ -155,15 +168,19 @@ Do(m) ==
          /\ must' = (IF Targets("s2c", 1) THEN FaultMoves ELSE <<>>)
          /\ UNCHANGED <<todo, budget, arr>> /\ Log(m @@ [d |-> "s2c", idx |-> 1, size |-> 0])
     [] m.k = "Send" ->
-         LET d == m.d  idx == Len(sent[d]) + 1  n == Head(todo[d])
+         LET d == m.d  idx == Len(sent[d]) + 1  h == Head(todo[d])
+             again == IF h < 0 THEN 0 - h ELSE 0                  \* > 0: the packet sent as number `again`, once more
+             n == IF again > 0 THEN Len(sent[d][again]) ELSE h
              \* content classes: every client->server payload and every second server->client one starts with the id
              pre == IF plan.c.tgt = "ids" /\ (d = "c2s" \/ idx % 2 = 0) THEN IdOf(plan.c.reg) ELSE <<>>
-             pl == pre \o SubSeq(Payload(d, idx, n), Len(pre) + 1, n) IN
-         /\ Send(d, pl, NonceOf(plan.id, d, idx))
+             pl == IF again > 0 THEN sent[d][again] ELSE pre \o SubSeq(Payload(d, idx, n), Len(pre) + 1, n) IN
+         /\ IF again > 0 THEN Resend(d, again, NonceOf(plan.id, d, again)) ELSE Send(d, pl, NonceOf(plan.id, d, idx))
          /\ todo' = [todo EXCEPT ![d] = Tail(@)]
          /\ must' = (IF Targets(d, idx) THEN FaultMoves ELSE <<>>)
          /\ UNCHANGED <<budget, arr>>
-         /\ Log(m @@ [idx |-> idx, size |-> n, sha |-> BytesToHex(Sha256(pl)), pre |-> BytesToHex(pre)])
+         \* elsewhere: before this send the same packet value is first sent on another connection
+         /\ Log(m @@ [idx |-> idx, size |-> n, sha |-> BytesToHex(Sha256(pl)), pre |-> BytesToHex(pre), again |-> again,
+                      elsewhere |-> (plan.c.tgt = "resend" /\ d = "c2s" /\ idx = 3)])
     [] m.k = "Hdr" ->
          /\ SendHeaderOnly(m.d, plan.c.n)
          /\ todo' = [todo EXCEPT ![m.d] = <<>>]
@@ -197,7 +214,10 @@ Do(m) ==
          /\ UNCHANGED <<budget, arr>> /\ Log([k |-> "Trunc", d |-> m.d, at |-> got[m.d]])
     [] m.k = "Dlv" ->
          /\ Deliver(m.d)
-         /\ UNCHANGED <<todo, must, budget, arr>>
+         \* deadline class: once the client is established nothing is sent before the dial deadline has passed
+         /\ must' = (IF plan.c.tgt = "deadline" /\ m.d = "s2c" /\ delivered["s2c"] = <<>> /\ DeliverKind("s2c") = "pkt"
+                     THEN <<[k |-> "Wait"]>> ELSE must)
+         /\ UNCHANGED <<todo, budget, arr>>
          \* user: what the client's connection does with a valid server->client packet ("no" = hands it to its user)
          /\ Log(m @@ [res |-> DeliverKind(m.d), idx |-> Len(delivered[m.d]) + 1,
                       user |-> IF m.d = "s2c" /\ DeliverKind(m.d) = "pkt" THEN Absorbs(Look(m.d).payload) ELSE "no"])
@@ -212,6 +232,7 @@ Cands ==
                       \o (IF budget > 0 /\ sm < L THEN <<[k |-> "Seg", d |-> d, n |-> sm], [k |-> "Seg", d |-> d, n |-> sm]>> ELSE <<>>)
       dlv(d) == IF DeliverKind(d) # "none" THEN <<[k |-> "Dlv", d |-> d], [k |-> "Dlv", d |-> d]>> ELSE <<>>
       snd(d) == IF todo[d] # <<>> /\ CanSend(d) /\ (d = "s2c" => sent[d] # <<>>)
+                   /\ (plan.c.tgt = "deadline" => \E i \in 1..Len(hist) : hist[i].k = "Wait")
                 THEN (IF plan.c.f = "hdr" /\ plan.c.d = d /\ plan.j = Len(sent[d]) + 1
                       THEN <<[k |-> "Hdr", d |-> d]>> ELSE <<[k |-> "Send", d |-> d], [k |-> "Send", d |-> d]>>)
                 ELSE <<>>
